@@ -62,6 +62,7 @@ def init(ck):
     from nifty.re.num import stats_distributions as sd
     from vf import rehelp as H
     H.silence_nifty_logger()
+    H.enable_compile_cache()
     ck.state.update(jax=jax, jnp=jnp, jft=jft, ift=ift, sd=sd)
 
 
